@@ -204,6 +204,13 @@ def flavours(tier):
           F(3, "srp_sha"), F(3, "ecdhe_ecdsa", reqCert="cert"), F(2, "dhe_dsa"), F(3, "ecdhe_rsa", ticket=True, npn=True),
           F(4, "tls13", reqCert="cert"), F(4, "tls13", reqCert="nocert")]
     # endpoints that both support TLS 1.0 - 1.3 (the downgrade-protection scenarios need a version range)
+    # handshake messages longer than one record (a Certificate of > 2^14 bytes): the transcript covers every byte of
+    # a message however many records carried it
+    lc1 = F(3, "ecdhe_rsa")
+    lc1["longchain"] = True
+    lc2 = F(1, "rsa", reqCert="cert")
+    lc2["longchain"] = True
+    fl += [lc1, lc2]
     rng = F(4, "tls13")
     rng["range"] = True
     rng2 = F(4, "tls13_ecdsa")
@@ -221,7 +228,15 @@ def scenario(fi, f):
         sk["alpn"] = [bytearray(b"h2"), bytearray(b"http/1.1")]
     if f.get("range"):
         return Scenario(f, "c04-%d" % fi, cextra=dict(minVersion=(3, 1)), sextra=dict(minVersion=(3, 1)), ckw_extra=ck, skw_extra=sk)
-    return Scenario(f, "c04-%d" % fi, ckw_extra=ck, skw_extra=sk)
+    sc = Scenario(f, "c04-%d" % fi, ckw_extra=ck, skw_extra=sk)
+    if f.get("longchain"):
+        from tlslite.x509certchain import X509CertChain
+        for kw in (sc.b["skw"], sc.b["ckw"]):
+            ch = kw.get("certChain")
+            if ch is not None:
+                one = sum(len(c.bytes) + 3 for c in ch.x509List)
+                kw["certChain"] = X509CertChain(list(ch.x509List) * (20000 // one + 1))
+    return sc
 
 
 def reference(job):
@@ -422,6 +437,12 @@ def run(tier):
             offs = list(range(0, mlen))
             if step > 1:
                 offs = sorted(set(list(range(0, min(6, mlen))) + list(range((env.SEED + fi) % step, mlen, step))))
+            if mlen > 4000:
+                # a message of several records: a coarser grid, and every record boundary and the very end closely
+                st2 = 97 if step > 1 else 13
+                near = [o_ for b_ in list(range(16384 - 4, mlen, 16384)) + [mlen - 4, mlen - 12] for o_ in range(b_ - 4, b_ + 8)]
+                offs = sorted(set(list(range(0, 6)) + list(range((env.SEED + fi) % st2, mlen, st2))
+                                  + [o_ for o_ in near if 0 <= o_ < mlen]))
             for off in offs:
                 for mask in (0x01, 0x80, 0xFF):
                     if step > 1 and mask != (0x01, 0x80, 0xFF)[(off + env.SEED) % 3] and off >= 6:
